@@ -107,7 +107,7 @@ fn describe_working_directory() -> String {
     format!("cwd {} holds {}{} entries, depth {}: {}", cwd, if entries > 200_000 { "more than " } else { "" }, entries, max_depth, sample.trim_end())
 }
 
-pub const RUN_BUSY_S: u64 = 30;
+pub const RUN_BUSY_S: u64 = 120;
 pub const RUN_BLOCKED_S: u64 = 600;
 
 fn process_cpu_seconds() -> f64 {
